@@ -473,6 +473,7 @@ TRUSTED_BASE = [
     "the hand-written polymorphic Lean model (lean/NssVerif/Model) is tied to /repo by this run's correspondence: the same model at Float (native driver) and the real Python code on the same inputs",
     "Gen/*.lean regenerated from /repo's data files and constants by harness/extract.py on this run",
     "where the property has a source tie (harness/srcspecs/<id>.py): Gen/Src/<id>.lean regenerated from the Python source of /repo by the translator harness/pytrans.py on this run and proved equal to the model (theorems src_*); trusted there: the translator's reading of numpy (the semantics listed in its docstring: elementwise operators, x**2 = x*x, np.clip/np.minimum/np.maximum on non-NaN operands, Boolean-mask stores as where, % as floored modulus, idealised pi/linspace, opaque inputs for table look-ups and random draws), validated on this run by executing the translated definitions at Float next to the real functions (coverage.source_tie)",
+    "for source that is not arithmetic (the batch pipeline of CphotAng.__call__: harness/calltrans.py; the Boolean / index-array bracketing of vec_1d_interp and its two shift helpers: harness/masktrans.py; and the other statement-by-statement readers listed in the property's MANIFEST text) the Gen/Src modules are written by strict recognisers of the statement forms found in the pinned source: each recognised statement is mapped to the model primitive named in the reader's docstring (trusted), anything unrecognised fails the regeneration (reported as a broken tie), and the reader's account is cross-checked against the running code on this run",
     "modelled, not verified: IEEE rounding (theorems are over the reals / ordered fields), numpy/scipy/dask/astropy internals (modelled by contract), libm vs numpy SIMD transcendental functions (absorbed by the stated tolerances)",
 ]
 
